@@ -529,13 +529,14 @@ def corr(ctx):
 
 def oracle(ctx, scale):
     rng = ctx.rng
-    N = ctx.n(1200, 12000) * scale
+    N = ctx.n(800, 12000) * scale
     for it in range(N):
         e, kind = gen_corners(rng)
         efs = gen_fermi(rng, e)
         ctx.count(f"oracle.corners.{kind}")
         check_weights(ctx, e, efs, nperm=24 if it < ctx.n(60, 400) else 2)
     groups_oracle(ctx, scale)
+    cache_oracle(ctx, scale)
     system_oracle(ctx, scale)
 
 
@@ -544,7 +545,7 @@ def groups_oracle(ctx, scale):
     weight; 0 below all bands, NB above (component level, both K-point kinds)"""
     from wannierberri.grid.tetrahedron import TetraWeights, TetraWeightsParal
     rng = ctx.rng
-    for it in range(ctx.n(200, 2000) * scale):
+    for it in range(ctx.n(150, 2000) * scale):
         nb = rng.randint(1, 7)
         nk = rng.randint(1, 3)
         paral = rng.random() < 0.5
@@ -616,6 +617,131 @@ def groups_oracle(ctx, scale):
                              dict(case, ik=ik))
                 if np.any(np.diff(cum) < -1e-12):
                     ctx.fail("tetrahedron CumDOS of one k-point decreases", dict(case, ik=ik, cum=cum))
+
+
+def cache_oracle(ctx, scale):
+    """hidden state of the weight cache on the REAL objects: histories of queries on ONE TetraWeights /
+    TetraWeightsParal object (same array object again, equal contents in another object, same length and end points
+    with other interior points, other lengths, overlapping ranges; derivative orders and thresholds in random order):
+    every answer must equal the answer of a FRESH object (bitwise) and, for der=0, the exact rational reference;
+    then several tetra calculators on one Data_K in random order vs each alone on a fresh Data_K"""
+    from wannierberri.grid.tetrahedron import TetraWeights, TetraWeightsParal
+    rng = ctx.rng
+    for it in range(ctx.n(30, 400) * scale):
+        paral = rng.random() < 0.5
+        nk, nb = rng.randint(1, 2), rng.randint(1, 4)
+        npr = ctx.nprng()
+        ncorn = 8 if paral else 4
+        allE = np.sort(npr.uniform(-2, 2, (nk, 1, nb)) + npr.uniform(-1, 1, (nk, 1 + ncorn, nb)) * rng.choice([0.3, 1.0]),
+                       axis=2)
+        eCenter = allE[:, 0, :]
+        eCorners = allE[:, 1:, :].reshape((nk, 2, 2, 2, nb) if paral else (nk, 4, nb))
+        cls = TetraWeightsParal if paral else TetraWeights
+        lo, hi = allE.min(), allE.max()
+        n0 = rng.randint(3, 6)
+        a0, b0 = sorted([rng.uniform(lo - 0.5, hi), rng.uniform(lo, hi + 0.5)])
+        if b0 - a0 < 0.1:
+            b0 = a0 + 0.5
+        arrays = [np.linspace(a0, b0, n0)]
+        history = []
+        case = dict(eCenter=eCenter, eCorners=eCorners, paral=paral, history=history)
+        with ctx.attempt("query history on one weight object", case):
+            tw = cls(eCenter=eCenter, eCorners=eCorners)
+            for step_ in range(rng.randint(4, 8)):
+                r = rng.random()
+                base = arrays[rng.randrange(len(arrays))]
+                if r < 0.3:
+                    ef, kind = base, "same object"
+                elif r < 0.45:
+                    ef, kind = base.copy(), "equal contents, other object"
+                elif r < 0.7:
+                    t = np.sort(npr.uniform(0, 1, len(base)))
+                    t[0], t[-1] = 0.0, 1.0
+                    ef, kind = base[0] + (base[-1] - base[0]) * t, "same length and end points, other interior"
+                    ef[0], ef[-1] = base[0], base[-1]
+                elif r < 0.85:
+                    ef, kind = np.linspace(base[0], base[-1], len(base) + rng.choice([-1, 1, 2])), "other length"
+                else:
+                    sh = rng.uniform(-0.5, 0.5) * (base[-1] - base[0])
+                    ef, kind = base + sh, "overlapping range"
+                if kind != "same object":
+                    arrays.append(ef)
+                der = rng.choice([0, 0, 1, 2, 3, -1])
+                th = rng.choice([-1, 1e-6, 0.3])
+                history.append((kind, ef.tolist(), der, th))
+                ctx.count(f"oracle.cache.{kind}")
+                got = tw.weights_all_band_groups(ef, der=der, degen_thresh=th)
+                fresh = cls(eCenter=eCenter, eCorners=eCorners).weights_all_band_groups(ef.copy(), der=der, degen_thresh=th)
+                ctx.case(signature=("cache", paral, nb, nk, tuple(ef), der, th, step_), nontrivial=step_ > 0)
+                for ik in range(nk):
+                    if set(got[ik]) != set(fresh[ik]) or any(not np.array_equal(np.asarray(got[ik][g]), np.asarray(fresh[ik][g]))
+                                                             for g in got[ik]):
+                        ctx.fail(f"step {step_} ({kind}, der={der}): the answer of a weight object that has seen other Fermi "
+                                 f"arrays differs from the answer of a fresh object: {dict(got[ik])} vs {dict(fresh[ik])}",
+                                 dict(case, ik=ik))
+                        break
+                else:
+                    if der == 0:
+                        for ik in range(nk):
+                            cum = sum(np.asarray(w) * (g[1] - g[0]) for g, w in got[ik].items())
+                            ref = np.zeros(len(ef))
+                            for ib in range(nb):
+                                if paral:
+                                    ref += paral_exact(0, eCenter[ik, ib], eCorners[ik, ..., ib], ef)
+                                else:
+                                    ref += np.array([float(exact_weight(0, eCorners[ik, :, ib], x)) for x in ef])
+                            if np.abs(cum - ref).max() > 1e-9:
+                                ctx.fail(f"step {step_} ({kind}): tetrahedron state count {np.asarray(cum).tolist()} differs "
+                                         f"from the exact fractions {ref.tolist()}", dict(case, ik=ik))
+                    continue
+                break
+    # ---- several tetra calculators sharing one Data_K, random order, vs each alone
+    from ..wbsys import rand_system, wb
+    from wannierberri.calculators.static import StaticCalculator
+    from wannierberri.calculators import static as st
+    from wannierberri.formula import covariant as frml
+    from wannierberri.data_K import get_data_k_class_from_system
+    rs = np.random.RandomState(rng.getrandbits(31))
+    for it in range(ctx.n(1, 5) * scale):
+        nw = int(rs.randint(1, 4))
+        with quiet():
+            s = rand_system(rs, num_wann=nw, nR=int(rs.randint(3, 7)), max_R=1, matrices=("Ham",))
+            NKFFT = [rng.choice([1, 2]) for _ in range(3)]
+            grid = wb.Grid(s, NK=NKFFT, NKFFT=NKFFT)
+            Kp = grid.get_K_list(use_symmetry=False)[0]
+        dK = np.array([rng.uniform(0, 1) for _ in range(3)])
+
+        def fresh_dk():
+            with quiet():
+                return get_data_k_class_from_system(s)(s, grid=grid, dK=dK, Kpoint=Kp)
+
+        E = fresh_dk().E_K
+        lo, hi = E.min() - 0.5, E.max() + 0.5
+        n = rng.randint(3, 6)
+        Ef = np.linspace(lo, hi, n)
+        Ef3 = lo + (hi - lo) * np.linspace(0, 1, n) ** 2
+        Ef3[-1] = Ef[-1]
+        makers = [("CumDOS(Ef)", lambda: st.CumDOS(Efermi=Ef, tetra=True)),
+                  ("CumDOS(same length and end points)", lambda: st.CumDOS(Efermi=Ef3, tetra=True)),
+                  ("DOS(Ef)", lambda: st.DOS(Efermi=Ef, tetra=True)),
+                  ("DOS(same length and end points)", lambda: st.DOS(Efermi=Ef3, tetra=True)),
+                  ("hole-like count", lambda: StaticCalculator(Efermi=Ef, Formula=frml.Identity, fder=0, tetra=True,
+                                                               hole_like=True)),
+                  ("CumDOS(other length)", lambda: st.CumDOS(Efermi=np.linspace(lo, hi, n + 1), tetra=True))]
+        rng.shuffle(makers)
+        case = dict(num_wann=nw, NKFFT=NKFFT, dK=dK, Efermi=Ef, Efermi3=Ef3, order=[m[0] for m in makers])
+        with ctx.attempt("tetra calculators sharing one Data_K", case):
+            shared = fresh_dk()
+            with quiet():
+                together = [mk()(shared).data for _, mk in makers]
+                alone = [mk()(fresh_dk()).data for _, mk in makers]
+            ctx.case(signature=("shared_tetra", nw, tuple(NKFFT), tuple(Ef), tuple(m[0] for m in makers)), nontrivial=True)
+            ctx.count("oracle.cache.shared_data_k")
+            for (name, _), a, b in zip(makers, together, alone):
+                if not np.array_equal(a, b):
+                    ctx.fail(f"{name} evaluated after other tetra calculators on the same Data_K gives {np.ravel(a).tolist()}, "
+                             f"alone {np.ravel(b).tolist()} (order: {[m[0] for m in makers]})", case)
+                    break
 
 
 PARAL_TETS = None
